@@ -23,7 +23,7 @@ SPEC = {
     "technique": "Lean 4: Handshake(headers) characterised as a function of the LAST occurrence of each header (scan = merge, by induction over arbitrary header lists), is_valid <-> a declarative validSpec over the header list for both carriers, onRequest 400/no-app vs connect-first, accept rendering = explicit header list with the token instantiated by an executable SHA-1/base64 (RFC 6455 sample checked by kernel evaluation), refused accept = no-op, 403, denial response by induction over body chunks, disconnect code per closing order; tied by differential runs of the real WSStream over the exhaustive header-presence lattice and by end-to-end runs on asyncio+trio over HTTP/1.1 and HTTP/2 with an independent wsproto client",
     "level_text": "Proved in Lean for ALL header lists (any length, duplicates, any case) and both carriers: Handshake(headers, v).is_valid() = True iff validSpec (last occurrence of each header, names case-insensitive; Connection a comma list with an `upgrade` token in any case; Upgrade = websocket in any case; Sec-WebSocket-Version exactly 13; a key on HTTP/1.1; never below 1.1) and every token-list header ASCII - is_valid_iff (no side condition) / is_valid_false_iff / non_ascii_is_400, with the one remaining raise-instead-of-400 boundary as a theorem (missing_upgrade_raises, unreachable through H11Protocol); invalid => 400 + closed + nothing put, ever (invalid_400_no_app, never_started_never_put); valid => exactly [websocket.connect] put and nothing written (valid_connect_first); accept => 101/200 with [subprotocol iff given (and then offered)] ++ [extensions] ++ [sec-websocket-accept = base64(sha1(key ++ GUID))] ++ [upgrade, connection on 1.1] ++ validated extra headers (accept_rendered, accept_ok_iff, accept_sent, accept_token_rfc6455), refused accept = state and wire untouched (accept_refused_is_noop); close => 403 (close_403); HTTP-response extension => exactly that status/headers/body chunks/end once (http_response_exact); disconnect code 1000 iff CLOSED/HTTPCLOSED else 1006 (disconnect_code), 1000 after the application's close (app_close_1000, simultaneous_close_1000), 1006 when lost (lost_1006).  disconnect_code_client_close: after a client-initiated close the application is told the client's code (1005 if none); non_ascii_is_400: a non-ASCII token-list header makes the handshake invalid instead of raising (F13 and F33 were repaired in the repository).",
     "level_note": "Trusted: Lean kernel; model HC/Stream/Ws.lean tied by differential runs; wsproto's extension negotiation result is a parameter of the model (taken from the run), its connection-state machine is modelled (connSend / connRecvClose) and sampled; H11Protocol's / H2Protocol's routing (which requests reach a WSStream) is exercised end to end only; HC.Pure.Sha1 is compared on every run with wsproto.utilities.generate_accept_token and with wsproto's own client handshake.",
-    "rule": "direct: exhaustive lattice over {connection, upgrade, key, version} x 6 states x HTTP version {1.0, 1.1, 2}, random subprotocol/extension offers, application decision sequences up to length 4 over the websocket send alphabet, closing orders {client first (1000, 1001, 3000, no code), application first, simultaneous, abrupt}; e2e: handshake classes x decisions x closing orders x carrier x worker; distinct = distinct (layer, carrier, worker, header-state vector, decision classes, closing order); non-trivial = handshake invalid, or a decision other than a bare accept, or a closing order other than abrupt",
+    "rule": "direct: exhaustive lattice over {connection, upgrade, key, version} x 6 states x HTTP version {1.0, 1.1, 2}, random subprotocol/extension offers, application decision sequences up to length 4 over the websocket send alphabet, closing orders {client first (1000, 1001, 3000, no code), application first, simultaneous, abrupt}; e2e: handshake classes x decisions x closing orders x carrier x worker, and the upgrade as the k-th request of its connection below / at keep_alive_max_requests (1, 2, 3) incl. wsproto's own client as oracle; distinct = distinct (layer, carrier, worker, header-state vector, decision classes, closing order); non-trivial = handshake invalid, or a decision other than a bare accept, or a closing order other than abrupt",
     "trusted": ["wsproto client handshake (WSConnection CLIENT) as oracle for an acceptable 101", "h11 / h2 client parsers"],
     "partial": ["duplicated handshake headers whose occurrences disagree and an HTTP/2 `:protocol` other than `websocket` are treated as unspecified by the monitor (the theorems state what the code does: last occurrence wins; `:protocol` is not looked at)"],
     "assumptions": ["requests are syntactically valid HTTP (h11 / h2 accept them); header names reach the stream lower-cased on both carriers"],
